@@ -77,24 +77,29 @@ def rule_path_item_refs_and_unknown_keys(repo: Repo, rep, rule: str = "R7.15") -
             vals = {const_str(e) for e in n.test.comparators[0].elts if const_str(e) is not None}
             if vals & {"parameters", "summary", "description", "servers"}:
                 skipsets.append((n, vals))
-    if not skipsets:
-        raise AnalysisError(f"{rule}: the by-name skip of Path Item fields (`if <key> in {{parameters, summary, ...}}: continue`) was not found (anchor)")
-    n0, vals = skipsets[0]
+    loops0 = [x for x in own_nodes(po.node) if isinstance(x, (ast.For, ast.AsyncFor)) and isinstance(x.iter, ast.Call) and isinstance(x.iter.func, ast.Attribute)
+              and x.iter.func.attr == "items" and isinstance(x.target, ast.Tuple) and len(x.target.elts) == 2 and any(
+                  isinstance(y, ast.Subscript) and dotted(y.value) == "HTTPMethod" for y in ast.walk(x))]
+    loop0 = max(loops0, key=lambda x: x.lineno) if loops0 else None  # the innermost one: the loop over the keys of one Path Item
+    if loop0 is None and not skipsets:
+        raise AnalysisError(f"{rule}: the key loop over a Path Item was not found in parse_operations (anchor)")
+    n0, vals = skipsets[0] if skipsets else (loop0, set())
     handled = any(isinstance(x, ast.Compare) and len(x.ops) == 1 and isinstance(x.ops[0], ast.In) and const_str(x.left) == "$ref" and getattr(x, "lineno", 0) < n0.lineno
                   for x in ast.walk(po.node))
     sub = f"{po.module.relpath}:parse_operations Path Item given as `$ref`"
-    if "$ref" in vals and not handled:
+    if not handled:
         rep.violation(rule, sub, f"{po.fq}|path-item-ref-skipped",
-                      "`$ref` is skipped like `summary` / `description`: the operations of a referenced Path Item (`#/components/pathItems/...`, or a file reference of a document that "
-                      "was not bundled) are missing from the client and generation reports nothing", po.loc(n0))
+                      ("`$ref` is skipped like `summary` / `description`" if "$ref" in vals else "nothing deals with `\"$ref\" in <path item>` before its keys are walked (the key is no HTTP method and is passed over)")
+                      + ": the operations of a referenced Path Item (`#/components/pathItems/...`, or a file reference of a document that was not bundled) are missing from the client and "
+                      "generation reports nothing", po.loc(n0))
     else:
-        rep.ok(rule, sub, "a `$ref` Path Item is dealt with before the key loop (resolved or rejected)" if handled else "`$ref` is not among the keys skipped by name", po.loc(n0))
+        rep.ok(rule, sub, "a `$ref` Path Item is dealt with before the key loop (resolved or rejected)", po.loc(n0))
     extra = vals - {"parameters", "summary", "description", "servers", "$ref"}
     sub2 = f"{po.module.relpath}:parse_operations keys skipped by name"
     if extra:
         rep.violation(rule, sub2, f"{po.fq}|skip-set|{sorted(extra)}", f"{sorted(extra)} are passed over by name although they are no documentation fields of a Path Item", po.loc(n0))
     else:
-        rep.ok(rule, sub2, f"only {sorted(vals - {'$ref'})}", po.loc(n0))
+        rep.ok(rule, sub2, f"only {sorted(vals - {'$ref'})}" if vals else "no key is skipped by name", po.loc(n0))
     # (b) the not-a-known-method branch
     sub3 = f"{po.module.relpath}:parse_operations key that is no HTTP method"
     branch = None
@@ -191,9 +196,13 @@ def rule_tag_attrs_spare_client_members(repo: Repo, rep, rule: str = "R7.14") ->
 
 
 def run(repo: Repo, rep: Report, tier: str) -> None:
+    from sa.report import guarded as _guarded
+
     po = repo.func("core.loader.operations.parser:parse_operations")
-    rule_tag_attrs_spare_client_members(repo, rep, "R7.14")
-    rule_path_item_refs_and_unknown_keys(repo, rep, "R7.15")
+    from sa.report import guarded
+
+    guarded(rep, rule_tag_attrs_spare_client_members, repo, rep, "R7.14")
+    guarded(rep, rule_path_item_refs_and_unknown_keys, repo, rep, "R7.15")
     # ---------------------------------------------------------------- R7.10 / R7.11
     from rules._memo import persistent_memo_rule
 
@@ -322,8 +331,8 @@ def run(repo: Repo, rep: Report, tier: str) -> None:
                       "'café' / 'caf', 'Data.Sources' / 'DataSources') form two groups with one module name - the second file overwrites the first and its "
                       "operations are silently lost", ns.methods["normalize_tag_key"].loc())
 
-    rule_case_agreement(repo, rep, "R7.9")
-    rule_method_filter_total(repo, rep, "R7.8")
+    _guarded(rep, rule_case_agreement, repo, rep, "R7.9")
+    _guarded(rep, rule_method_filter_total, repo, rep, "R7.8")
     # ---------------------------------------------------------------- R7.3
     _dedup_site(repo.func("emitters.endpoints_emitter:EndpointsEmitter._deduplicate_operation_ids_globally"), "operation methods", "seen_methods", _Relabel(rep, "R7.3"))
     emit = repo.func("emitters.endpoints_emitter:EndpointsEmitter.emit")
@@ -370,8 +379,8 @@ def run(repo: Repo, rep: Report, tier: str) -> None:
         rep.violation("R7.4", "class/module derivation emitter <-> APIClient", f"naming-disagree|{n1}|{n2}",
                       f"tag client class/module names are derived differently: emitter {n1}, client visitor {n2}", emit.loc())
 
-    rule_paths_unfiltered(repo, rep, "R7.12")
-    rule_every_method_written(repo, rep, "R7.13")
+    _guarded(rep, rule_paths_unfiltered, repo, rep, "R7.12")
+    _guarded(rep, rule_every_method_written, repo, rep, "R7.13")
     # ---------------------------------------------------------------- R7.5 no filter between grouping and emission
     def _has_call(n: ast.AST, attr: str) -> bool:
         return any(isinstance(c.func, ast.Attribute) and c.func.attr == attr for c in calls_in(n))
